@@ -260,6 +260,30 @@ func opsFor(fds []protoreflect.FieldDescriptor, withUnknown bool, mergeOps bool)
 				s.real.Set(rfd, s.real.NewField(rfd))
 				s.model.SetMsg(fd, refmsg.New(fd.Message()))
 			})
+			add(n+".Set(invalid)", func(s *sut) {
+				// the read-only view returned for an unpopulated message field must not be storable
+				if s.model.Has(fd) {
+					return
+				}
+				rfd := realFD(s, fd)
+				inv := s.real.Get(rfd)
+				func() {
+					defer func() { recover() }()
+					s.real.Set(rfd, inv)
+				}()
+			})
+			if fd.IsExtension() {
+				add(n+".SetExtension(typed nil)", func(s *sut) {
+					// proto.SetExtension with an invalid (typed nil) message clears the extension
+					if s.f.Dynamic {
+						return // dynamicpb extension types reject an invalid message in ValueOf (permitted: "panics if the type of v is invalid")
+					}
+					rfd := realFD(s, fd)
+					xt := rfd.(protoreflect.ExtensionTypeDescriptor).Type()
+					proto.SetExtension(s.real.Interface(), xt, xt.InterfaceOf(xt.Zero()))
+					s.model.Clear(fd)
+				})
+			}
 			add(n+".Mutable.clearinner", func(s *sut) {
 				if !s.model.Has(fd) || inner == nil {
 					return
